@@ -41,12 +41,16 @@ def pvalJ : PVal → Json
   | none => Json.str "nan"
   | some q => ratJ q
 
-def envOf (j : Json) : Option (Env × List (String × PVal) × List (String × PVal) × List (String × PVal)) := do
+/-- parameter sources of a line: `code1` are the extra code overrides of ensemble member 1 -/
+def envsOf (j : Json) :
+    Option ((Nat → Env) × List (String × PVal) × List (String × PVal) × (Nat → List (String × PVal))) := do
   let model ← pairsOf j "model"
   let file ← pairsOf j "file"
   let code ← pairsOf j "code"
+  let code1 := (pairsOf j "code1").getD []
   let deleted := (getStrList j "deleted").getD []
-  pure (fun n => if deleted.contains n then none else chain model file code n, model, file, code)
+  let codeOf : Nat → List (String × PVal) := fun m => if m = 0 then code else code1 ++ code
+  pure (fun m n => if deleted.contains n then none else chain model file (codeOf m) n, model, file, codeOf)
 
 def outcomeJ : Outcome EVal → Json
   | .keep => Json.str "keep"
@@ -71,7 +75,9 @@ def handle (j : Json) : Option Json := do
   let op ← getStr j "op"
   match op with
   | "opt" =>
-      let (env, model, file, code) ← (getObj j "params").bind envOf
+      let (envs, model, file, codeOf) ← (getObj j "params").bind envsOf
+      let member := ((getObj j "params").bind (getNat · "member")).getD 0
+      let code := codeOf member
       let states ← (← getArr j "states").mapM declOf
       let algs ← (← getArr j "algs").mapM declOf
       let inputsJ ← getArr j "inputs"
@@ -89,13 +95,13 @@ def handle (j : Json) : Option Json := do
       let all := states ++ algs ++ inputs
       let boundsJ := all.map (fun d =>
         Json.arr #[Json.str d.name,
-          match boundsOf env (inh.lookup d.name) d with
+          match boundsOf (C14.envOf envs .bounds member) (inh.lookup d.name) d with
           | some (lo, hi) => Json.arr #[lo.toJson, hi.toJson]
           | none => Json.str "raise"])
-      let nomJ := all.map (fun d => Json.arr #[Json.str d.name, (nominalOf env d).toJson])
+      let nomJ := all.map (fun d => Json.arr #[Json.str d.name, (nominalOf (C14.envOf envs .nominal member) d).toJson])
       let discJ := all.map (fun d => Json.arr #[Json.str d.name, Json.bool (isDiscrete d.ptype)])
-      let histJ := states.map (fun d => Json.arr #[Json.str d.name, outcomeJ (historyOf env d)])
-      let seedJ := (states ++ algs).map (fun d => Json.arr #[Json.str d.name, outcomeJ (seedOf env d)])
+      let histJ := states.map (fun d => Json.arr #[Json.str d.name, outcomeJ (historyOf (C14.envOf envs .history member) d)])
+      let seedJ := (states ++ algs).map (fun d => Json.arr #[Json.str d.name, outcomeJ (seedOf (C14.envOf envs .seed member) d)])
       let names := (model ++ file ++ code).map (·.1) |>.eraseDups
       let parJ := names.map (fun n => Json.arr #[Json.str n,
         match chain model file code n with
@@ -113,7 +119,8 @@ def handle (j : Json) : Option Json := do
         ("parameters", Json.arr parJ.toArray),
         ("outputs", strsJ (outputsOf declared controls))])
   | "sim" =>
-      let (env, _, _, _) ← (getObj j "params").bind envOf
+      let (envs, _, _, _) ← (getObj j "params").bind envsOf
+      let env := envs 0
       let d ← (getObj j "decl").bind declOf
       match simStart env d (optRat j "initial_state") (optRat j "seed") with
       | none => pure (Json.str "unresolved")
